@@ -39,7 +39,7 @@ Section History.
     | ev :: r =>
         match ev with
         | HEdit rc o =>
-            rc_use_cache rc = true /\ o_lock_write_fails o = false /\
+            rc_use_cache rc = true /\ o_lock_fault o = LkOk /\
             ro_exit (edit_of h rc o) <> XPanic /\ ro_exit (edit_of h rc o) <> XHang
         | _ => True
         end /\ hist_ok (hstep h ev) r
